@@ -50,7 +50,8 @@ func checkRequireJSON(req *protocol.Request, tagInfo TagInfo) bool {
 
 func keyExist(req *protocol.Request, tagInfo TagInfo) bool {
 	ct := bytesconv.B2s(req.Header.ContentType())
-	if utils.FilterContentType(ct) != consts.MIMEApplicationJSON {
+	// media types are case-insensitive (the binder lower-cases them before it decodes the body)
+	if !strings.EqualFold(utils.FilterContentType(ct), consts.MIMEApplicationJSON) {
 		return false
 	}
 	result := gjson.GetBytes(req.Body(), tagInfo.JSONName)
